@@ -360,7 +360,7 @@ fn native_zipatch_create_apply() {
 //@use_common
 
 //@unit props=C17 label=B tier=quick native=1 fn=patch::ZiPatch::apply bound="by execution on temporary directories: a patch created from two small trees (two added files of 5 and 300 bytes, one removed file): every truncation and 7 single-byte corruptions per byte except the 9 bytes 'SQPK'+size+operation letter of each chunk (turning a file operation into an expand/delete-data command would make apply write gigabytes of zeros); plus every multiple of 16 up to 1024 in the size field of each file block header, AddFile chunks claiming 2^40 bytes over a single block with an oversized header-size field, delete-data, expand-data, add-data and header-update commands placed before any target info, and a missing patch file"
-//@desc damaged patch files (truncated anywhere, any byte of chunk sizes, names, block headers or checksums damaged, commands before target info, missing file) make apply return Ok or Err, never panic
+//@desc damaged patch files (truncated anywhere, any byte of chunk sizes, names, block headers or checksums damaged, commands before target info, delete/expand commands with block count 0, missing file) make apply return Ok or Err, never panic
 #[test]
 fn native_zipatch_damaged_nopanic() {
     let base = std::env::temp_dir().join(format!("physis-verif-c17p-{}", std::process::id()));
@@ -423,6 +423,11 @@ fn native_zipatch_damaged_nopanic() {
         p.extend_from_slice(&empty[12..]);
         s.run(&f, &p, &format!("'{}' command before any target info", letter as char));
     }
+    // delete / expand commands after a target info whose block count is 0 (nothing to mark empty) or 1
+    for letter in [b'D', b'E'] { for blocks in [0u32, 1] {
+        let mut p = empty[..12].to_vec(); p.extend(nap_target(0)); p.extend(nap_del_exp(letter, 0x0a, 0, 0, 2, blocks)); p.extend_from_slice(&empty[12..]);
+        s.run(&f, &p, &format!("'{}' command with block count {blocks}", letter as char));
+    } }
     let _ = std::fs::remove_dir_all(&base);
     s.finish("native_zipatch_damaged_nopanic");
 }
